@@ -10,8 +10,10 @@ Lits == [pre : BOOLEAN, post : BOOLEAN, esc : BOOLEAN, nph : 0..2,
 ArgForms == {"none", "pos_field", "pos_expr", "named_match", "named_nomatch", "two", "named_extra"}
 
 Shareds == {"none", "bare_variant", "wrap", "default"}
-Cases == [hasAttr : {TRUE}, nfields : 1..2, named : BOOLEAN, D : DerivedTraits, lit : Lits, args : ArgForms, sh : Shareds]
-         \cup [hasAttr : {FALSE}, nfields : 1..2, named : BOOLEAN, D : DerivedTraits \ {"Debug"}, lit : {NoLit}, args : {"none"}, sh : Shareds]
+\* tc: the attribute's argument list ends with a comma (`("{_0}",)`, `("{}", _0,)`), as format_args! allows: a spelling, never a
+\* difference - Doc and Impl outcomes do not depend on it
+Cases == [hasAttr : {TRUE}, nfields : 1..2, named : BOOLEAN, D : DerivedTraits, lit : Lits, args : ArgForms, sh : Shareds, tc : BOOLEAN]
+         \cup [hasAttr : {FALSE}, nfields : 1..2, named : BOOLEAN, D : DerivedTraits \ {"Debug"}, lit : {NoLit}, args : {"none"}, sh : Shareds, tc : {FALSE}]
 
 \* keep the space to the interesting part: text/second placeholder/modifiers are varied one at a time
 Interesting(x) ==
@@ -22,6 +24,7 @@ Interesting(x) ==
     \* a literal without placeholders: plain text, or text with `{{`/`}}` escapes (post); never an argument
     /\ (x.lit.nph = 0 => ~x.lit.pre /\ x.lit.mod = "none" /\ x.lit.ref = "next" /\ x.lit.ty = "Display" /\ x.args = "none" /\ x.sh = "none")
     /\ (x.args = "two" <=> x.nfields = 2 /\ x.hasAttr)
+    /\ (x.tc => x.lit.mod \in {"none", "width"} /\ ~x.lit.pre /\ ~x.lit.post /\ x.lit.nph = 1 /\ x.sh = "none")
     /\ (x.lit.mod \in {"colon", "colon_ws"} => x.lit.ty = "Display")    \* an EMPTY spec: with a type it is "none"/"ws"
     /\ (x.named => x.lit.ref = "name_field" \/ ~x.hasAttr)          \* field names only matter there
     /\ (x.lit.mod \notin Blank => x.args \in {"none", "pos_field"})
@@ -32,7 +35,7 @@ Interesting(x) ==
     /\ (x.lit.ref = "name_other" => x.args \in {"none", "named_match", "pos_field", "named_extra"})
     /\ (x.args = "named_extra" => x.lit.ref \in {"name_other", "name_field"} /\ x.lit.nph = 1 /\ x.sh = "none")
 
-Init == c = [hasAttr |-> FALSE, nfields |-> 0, named |-> FALSE, D |-> "Display", lit |-> NoLit, args |-> "none", sh |-> "none"]
+Init == c = [hasAttr |-> FALSE, nfields |-> 0, named |-> FALSE, D |-> "Display", lit |-> NoLit, args |-> "none", sh |-> "none", tc |-> FALSE]
 Next == c.nfields = 0 /\ c' \in {x \in Cases : Interesting(x)}
 Spec == Init /\ [][Next]_c
 
